@@ -617,6 +617,61 @@ func reductions(root *TSpec) []TSpec {
 			}
 			return false, false
 		})
+		apply(s, func(f *FSpec) (bool, bool) { // an embedded field becomes an ordinary named field
+			var tn string
+			switch f.Emb {
+			case "val":
+				tn = "EmbBase"
+			case "ptr":
+				tn = "EmbOther"
+			case "tagged":
+				tn = "Leaf"
+			default:
+				return false, false
+			}
+			*f = FSpec{Name: "Un" + tn, Mode: "tagged", JName: "un_" + strings.ToLower(tn), T: TSpec{K: "corpus:" + tn}}
+			return false, true
+		})
+		// lift: a struct-typed field is replaced by one of its own fields (tag and all)
+		for k := 0; k < 6; k++ {
+			k := k
+			apply(s, func(f *FSpec) (bool, bool) {
+				if f.Emb != "" || f.T.K != "struct" || k >= len(f.T.F) || f.T.F[k].Emb != "" || f.T.F[k].Unexp {
+					return false, false
+				}
+				sub := f.T.F[k]
+				sub.T = cloneT(sub.T)
+				*f = sub
+				return false, true
+			})
+		}
+		// hoist: a struct-typed node of the field's type chain is replaced by the type of one of its fields
+		for j := 0; j < 4; j++ {
+			for k := 0; k < 6; k++ {
+				j, k := j, k
+				apply(s, func(f *FSpec) (bool, bool) {
+					if f.Emb != "" {
+						return false, false
+					}
+					cur := &f.T
+					for n := 0; n < j; n++ {
+						if cur.E == nil {
+							return false, false
+						}
+						cur = cur.E
+					}
+					if cur.K != "struct" || k >= len(cur.F) || cur.F[k].Emb != "" || cur.F[k].Unexp {
+						return false, false
+					}
+					nt := cloneT(cur.F[k].T)
+					*cur = nt
+					if f.ST != "" && !stApplicable(f.ST, &f.T) {
+						f.ST = ""
+					}
+					return false, true
+				})
+			}
+		}
 		// type chain: unwrap wrapper j / replace node j by int
 		for j := 0; j < 4; j++ {
 			j := j
@@ -667,8 +722,8 @@ func reductions(root *TSpec) []TSpec {
 	kinds := map[string]bool{}
 	var findCorpus func(t *TSpec)
 	findCorpus = func(t *TSpec) {
-		if strings.HasPrefix(t.K, "corpus:") {
-			kinds[t.K] = true
+		if k := standInKey(t); k != "" {
+			kinds[k] = true
 		}
 		if t.E != nil {
 			findCorpus(t.E)
@@ -692,7 +747,7 @@ func reductions(root *TSpec) []TSpec {
 			c := cloneT(*root)
 			var repl func(t *TSpec)
 			repl = func(t *TSpec) {
-				if t.K == k {
+				if standInKey(t) == k {
 					*t = cloneT(si)
 					return
 				}
@@ -710,6 +765,18 @@ func reductions(root *TSpec) []TSpec {
 		}
 	}
 	return out
+}
+
+// standInKey names the nodes a whole-tree replacement may target: compiled types, time.Time,
+// interface{} and the empty struct (each is "one type that may occur several times").
+func standInKey(t *TSpec) string {
+	switch {
+	case strings.HasPrefix(t.K, "corpus:"), t.K == "time", t.K == "iface":
+		return t.K
+	case t.K == "struct" && len(t.F) == 0:
+		return "struct{}"
+	}
+	return ""
 }
 
 func standInRank(k string) int {
